@@ -289,6 +289,15 @@ func verifLemmaMaxBodyTight(c *channelInstance, m *Message, chunkSize int, chunk
 //@   loop 0 invariant fresh(s.instances[cid]) && arr(s.instances[cid]) != arr(oldInstances)
 //@   loop 0 invariant held(&s.instancesMu) && released(&s.instancesMu) == rel0
 
+// the receiver's candidates for a channel id are exactly the stored list (so a removed token is no candidate)
+//@ func (*SecureChannel).getInstancesBySecureChannelID
+//@   props C17
+//@   bytes
+//@   requires s != nil
+//@   assigns held(&s.instancesMu), released(&s.instancesMu)
+//@   ensures [C17:candidates] len(s.instances[id]) > 0 ==> sameslice(result, s.instances[id])
+//@   ensures [C17:no-candidates] len(s.instances[id]) == 0 ==> len(result) == 0
+
 // frame of SetMaximumBodySize for any algorithm (the main contract above is the C38 formula)
 //@ func (*channelInstance).SetMaximumBodySize@frame
 //@   props C17
